@@ -198,6 +198,26 @@ func (e *Env) ident(name string) (TV, error) {
 			return TV{e.ssaVal(best.val), best.val.Type()}, nil
 		}
 	}
+	if e.fn != nil && e.point != nil {
+		// a variable that lives in a cell but is never referred to by name in the source after
+		// its declaration (a named result only written by `return x` and by a deferred literal)
+		var cell *ssa.Alloc
+		n := 0
+		for _, b := range e.fn.Blocks {
+			for _, in := range b.Instrs {
+				if a, ok := in.(*ssa.Alloc); ok && a.Comment == name {
+					cell = a
+					n++
+				}
+			}
+		}
+		if n == 1 && (cell.Block() == e.point || cell.Block().Dominates(e.point)) {
+			if _, known := g.vals[cell]; known {
+				l := g.locOf(cell)
+				return TV{g.loadIn(e.st, l), l.ty}, nil
+			}
+		}
+	}
 	if e.fn != nil {
 		for _, p := range e.fn.Params {
 			if p.Name() == name {
